@@ -234,6 +234,55 @@ func c09PubsubOne(c *vf.Ctx, sub string, i int, r *rand.Rand) string {
 		if !hasPub || hasPriv == filterB {
 			c.Fail(sub, i, "pubsub-address-filtering", fmt.Sprintf("addrs %v filter=%v", maStrings(a.Addrs), filterB), wit())
 		}
+		// (a2) a burst from A while a consumer is not asking for the next announcement: all of them are allowed and
+		// new, so all of them are delivered once it does (a second receiver on B's host, nobody calling Next yet)
+		if rcS, err := announce.NewReceiver(hB, topicName, announce.WithTopic(topics[2])); err != nil {
+			c.Fail(sub, i, "harness-second-receiver", err.Error(), wit())
+			return
+		} else {
+			const burst = 5
+			want := map[string]bool{}
+			for k := 0; k < burst; k++ {
+				cb := c09Cid(740000 + 10*i + k)
+				want[cb.String()] = true
+				mb := message.Message{Cid: cb}
+				mb.SetAddrs([]multiaddr.Multiaddr{pubAddr})
+				_ = snd.Send(context.Background(), mb)
+				time.Sleep(20 * time.Millisecond)
+			}
+			// (they have reached B's host when the receiver that is being read has delivered them)
+			arrived := 0
+			for w := 0; w < 4000 && arrived < burst; w++ {
+				arrived = countOf(colB, func(a announce.Announce) bool { return want[a.Cid.String()] })
+				time.Sleep(5 * time.Millisecond)
+			}
+			if arrived < burst {
+				c.Inconclusive(sub, i, "burst-did-not-reach-B", fmt.Sprint(arrived), nil)
+				rcS.Close()
+				return
+			}
+			time.Sleep(200 * time.Millisecond)
+			gotS := map[string]bool{}
+			for k := 0; k < burst; k++ {
+				ctx, cancel := context.WithTimeout(context.Background(), 10*time.Second)
+				a, err := rcS.Next(ctx)
+				cancel()
+				if err != nil {
+					break
+				}
+				if want[a.Cid.String()] {
+					gotS[a.Cid.String()] = true
+				} else {
+					k-- // (a straggler of the warm-up)
+				}
+			}
+			rcS.Close()
+			if len(gotS) != burst {
+				c.Fail(sub, i, "pubsub-burst-not-all-delivered", fmt.Sprintf("%d of %d announcements that arrived while the consumer was not waiting were delivered afterwards", len(gotS), burst), wit())
+				return
+			}
+			c.Inc("pubsub_bursts_delivered_to_a_late_consumer")
+		}
 		// (b) a direct announcement at the relay R for publisher P
 		cid2 := c09Cid(720000 + i)
 		if err := rcR.Direct(context.Background(), cid2, peer.AddrInfo{ID: P.ID, Addrs: []multiaddr.Multiaddr{pubAddr, privAddr}}); err != nil {
